@@ -145,6 +145,7 @@ def op_goal(op, cs):
         "app_splits": "findall(X0-Y0, append(X0, Y0, S), R)",
         "nth0_all": "findall(I0-E0, nth0(I0, S, E0), R)",
         "print": "write_term_to_chars(S, [quoted(true)], R)",
+        "nchars": "catch(( number_chars(N0, S) -> number_codes(N0, Cs0), R = yes(Cs0) ; R = no ), error(E0, _), R = err(E0))",
     }
     if op not in t:
         raise common.ToolError("no query template for operation %r" % op)
@@ -176,33 +177,42 @@ def show_cs(cs):
 # execution: batches of queries on one machine; a crash of the machine is narrowed down to the query
 # ------------------------------------------------------------------------------------------------
 
+def slim(out):
+    """keep of a query result only what is compared (the first answer's binding of R): the answers also bind every auxiliary
+    variable of the materialisations, which is hundreds of MB over a thorough run"""
+    if not isinstance(out, dict) or "a" not in out:
+        return out
+    a = out["a"][:1]
+    if a and isinstance(a[0], dict) and "b" in a[0]:
+        a = [{"b": {k: v for k, v in a[0]["b"].items() if k == "R"}}]
+    return {"a": a}
+
+
 def run_batches(queries, workers, batch=150):
     """queries: list of dicts with 'q' (goal text ending in '.'). Returns list of results aligned with queries;
     a result is the harness query entry, or {'crash': reason}."""
     out = [None] * len(queries)
-    jobs, spans = [], []
-    for b in range(0, len(queries), batch):
-        idx = list(range(b, min(b + batch, len(queries))))
-        jobs.append({"id": "b%d" % b, "fresh": True, "timeout": 180,
-                     "steps": [{"consult": HELPERS}] + [{"q": queries[i]["q"], "max": 2} for i in idx]})
-        spans.append(idx)
-    res = run_jobs(jobs, workers=workers, job_timeout=180)
+    spans = [list(range(b, min(b + batch, len(queries)))) for b in range(0, len(queries), batch)]
     redo = []
-    for job, idx in zip(jobs, spans):
-        r = res.get(job["id"], {"crash": "missing"})
-        if "crash" in r:
-            redo += idx
-            continue
-        rs = r["res"][1:]
-        lost = False
-        for j, i in enumerate(idx):
-            if lost or j >= len(rs):
-                redo.append(i)
+    group = 16 * max(1, workers)          # the raw results of a group are dropped before the next one runs
+    for g in range(0, len(spans), group):
+        jobs = [{"id": "b%d" % idx[0], "fresh": True, "timeout": 180,
+                 "steps": [{"consult": HELPERS}] + [{"q": queries[i]["q"], "max": 2} for i in idx]} for idx in spans[g:g + group]]
+        res = run_jobs(jobs, workers=workers, job_timeout=180)
+        for job, idx in zip(jobs, spans[g:g + group]):
+            r = res.get(job["id"], {"crash": "missing"})
+            if "crash" in r:
+                redo += idx
                 continue
-            out[i] = rs[j]
-            if "panic" in rs[j]:
-                lost = True         # the session was replaced: the helper predicates are gone for the rest of this batch
-        continue
+            rs = r["res"][1:]
+            lost = False
+            for j, i in enumerate(idx):
+                if lost or j >= len(rs):
+                    redo.append(i)
+                    continue
+                out[i] = slim(rs[j])
+                if "panic" in rs[j]:
+                    lost = True         # the session was replaced: the helper predicates are gone for the rest of this batch
     if redo:
         single = run_single(queries, redo, workers, 10)
         for i in redo:
@@ -337,7 +347,7 @@ def detail(c, got):
 
 def run(tier):
     rep = Report(PROP, tier, META["level"])
-    rep.rule = ("values = contents (8 patterns over a, b, 2/3/4-byte characters, NUL; lengths 0..17, quick: 10 lengths x 4 patterns) x tails "
+    rep.rule = ("values = contents (9 patterns over a, b, 2/3/4-byte characters, NUL, digits; lengths 0..17, quick: 10 lengths x 5 patterns) x tails "
                 "([], unbound, foo); each in every admissible materialisation x every unary operation, and x every near-equal partner "
                 "(same, last character up/down, shorter, longer, other tails) in 3 partner materialisations (compare both ways, ==, =); "
                 "plus the split-string pairs on which the layout model predicts the code to go astray (capped); distinct = "
